@@ -53,6 +53,18 @@ Theorem C12_handled_not_fallback :
 Proof. exact handled_not_fallback. Qed.
 Print Assumptions C12_handled_not_fallback.
 
+(* one-directional message types stay without a handler in the role that never legitimately receives them
+   (so by C12_unimplemented they are answered with UNIMPLEMENTED there), whichever table or class a handler
+   is moved to: client side for SERVICE_REQUEST / USERAUTH_REQUEST / USERAUTH_INFO_RESPONSE (the GSS-API
+   server-side handler object is never installed on a client), classic server side for SERVICE_ACCEPT /
+   USERAUTH_FAILURE / SUCCESS / BANNER / INFO_REQUEST *)
+Theorem C12_wrong_direction_unhandled :
+  (forall au a s rk, a <> AHGss ->
+     forallb (unhandled (mkState false au a s rk [])) client_to_server_only = true) /\
+  (forall au a rk, forallb (unhandled (mkState true au a false rk [])) server_to_client_only = true).
+Proof. split; [exact wrong_direction_client | exact wrong_direction_server]. Qed.
+Print Assumptions C12_wrong_direction_unhandled.
+
 (* the defect that was repaired (fixes/C12-msg-names-keyerror.diff): with `MSG_NAMES[ptype]`
    some unhandled type kills the transport with KeyError in every state *)
 Theorem C12_v0_refuted :
